@@ -135,17 +135,33 @@ def rule_jinv(repo):
 
 @guarded
 def rule_clone(repo):
-    res = RuleResult('C05.CLONE', 'LieTensor.add works on a clone of self; __add__ delegates to add', floor=2)
+    res = RuleResult('C05.CLONE', 'LieTensor.add works on a fresh copy of self that already has the BROADCAST batch shape of (self, other) - add_ writes '
+                     'in place and cannot grow its destination, so X + a with a larger batch on the a side must expand X first; __add__ delegates to add', floor=2)
     f = repo.func(LT, 'LieTensor.add')
     rv = returned_calls(f)
-    ok = False
+    inl = inline_straight(f.node)
+    ok = bc = False
     for r, v in rv:
+        v = inline_straight(f.node, upto=r).value(r.value)
         if isinstance(v, ast.Call) and isinstance(v.func, ast.Attribute) and v.func.attr == 'add_':
             recv = v.func.value
-            ok = isinstance(recv, ast.Call) and isinstance(recv.func, ast.Attribute) and recv.func.attr == 'clone' and dotted(recv.func.value) == 'self'
-    res.inst({'function': f.fq, 'clones': ok}, f.fq)
+            chain = []
+            cur = recv
+            while isinstance(cur, ast.Call) and isinstance(cur.func, ast.Attribute):
+                chain.append(cur.func.attr)
+                cur = cur.func.value
+            root_self = dotted(cur) == 'self'
+            ok = root_self and ('clone' in chain or 'contiguous' in chain and 'expand' in chain)
+            # the copy is taken AFTER self was expanded / broadcast to the common batch shape
+            bc = root_self and any(a in chain for a in ('expand', 'expand_as', 'broadcast_to', 'repeat', 'tile')) or \
+                any(isinstance(x, ast.Call) and (dotted(x.func) or '').split('.')[-1] in ('broadcast_tensors', 'broadcast_to', 'broadcast_shapes') for x in ast.walk(v))
+    res.inst({'function': f.fq, 'clones': ok, 'expanded to the broadcast batch before the in-place add': bc}, f.fq)
     if not ok:
-        res.add(Finding('C05.CLONE', f, 'LieTensor.add must apply add_ to self.clone()', construct='add clone'))
+        res.add(Finding('C05.CLONE', f, 'LieTensor.add must apply add_ to a copy of self', construct='add clone'))
+    elif not bc:
+        res.add(Finding('C05.CLONE', f, 'LieTensor.add applies add_ to `self.clone()` with the batch shape of self: when `other` has the larger batch (X of lshape '
+                        '(2,1) plus a of shape (3,6), or an unbatched X plus a batch of increments) the in-place write cannot hold the result and the sum '
+                        'raises, although it is documented as Exp(a) @ X, which broadcasts', construct='add broadcast'))
     f = repo.func(LT, 'LieTensor.__add__')
     rv = returned_calls(f)
     ok = any(isinstance(v, ast.Call) and dotted(v.func) == 'self.add' for r, v in rv)
